@@ -34,6 +34,7 @@ type recClient struct {
 	mu     *sync.Mutex
 	log    *[]subRequest
 	hookFn func()
+	gate   func(text string) // when set: called with the text of every non-introspection request before it is executed
 }
 
 func cloneSS(ss *graphql.SelectionSet) *graphql.SelectionSet {
@@ -166,6 +167,9 @@ func (c *recClient) Execute(ctx context.Context, req *federation.QueryRequest) (
 		c.mu.Unlock()
 		if c.hookFn != nil {
 			c.hookFn()
+		}
+		if gate := c.gate; gate != nil {
+			gate(rec.Text)
 		}
 	}
 	return c.inner.Execute(ctx, req)
